@@ -309,6 +309,10 @@ def handlersP : List (String × PHandler) := [
   ("vector", {
     run := fun a => match a with | [_] => some { model := [1], specOk := true, cls := "spec-example" } | _ => none,
     spec := fun _ impl => some (impl == [1]) }),
+  -- the quick tier's 2^32-byte requests were skipped for lack of memory (recorded in the class histogram)
+  ("hugeskip", {
+    run := fun a => match a with | [_] => some { model := [1], specOk := true, cls := "huge-part-skipped:not-enough-memory" } | _ => none,
+    spec := fun _ impl => some (impl == [1]) }),
   ("jobend", {
     run := fun a => match a with | [_] => some { model := [0], specOk := true, cls := "history-completed" } | _ => none,
     spec := fun _ impl => some (impl == [0]) }),
